@@ -22,6 +22,8 @@ to account for:
     may also differ.
 """
 
+import copy
+
 from tangelo.linq.helpers import pauli_of_to_string
 
 
@@ -180,6 +182,8 @@ def translate_c_to_sympy(source_circuit):
     for gate in reversed(source_circuit._gates):
         # If the parameter is a string, we use it as a variable.
         if gate.parameter and isinstance(gate.parameter, str):
+            # Use a copy: the gates of the source circuit must not be modified
+            gate = copy.copy(gate)
             gate.parameter = symbols(gate.parameter, real=True)
 
         if gate.name in {"H", "X", "Y", "Z"}:
